@@ -35,7 +35,8 @@ def run(chk, tier):
                 "interpreted from MIR with contains() answered both ways, hand out the re-branded pointer exactly when "
                 "it said yes, and contains(), interpreted on terms, is the identity comparison of the set's Rc with the "
                 "handle's Weak slot table; (4) no exported function returns a branded type at "
-                "'static, and every exported macro whose expansion contains `unsafe` (static_collect!, dyn_collect!, "
+                "'static or with a lifetime that occurs in none of its inputs (builders, which are unlinked allocations, "
+                "and raw pointers aside), and every exported macro whose expansion contains `unsafe` (static_collect!, dyn_collect!, "
                 "unsize!; the Write-related ones belong to C13) is in the reviewed table; (5) the escape corpus: each violating client program is rejected by rustc for the "
                 "expected reason and its twin (differing only in the offending lines) compiles.")
     chk.not_decided += ["soundness of rustc's lifetime checking (trusted)", "programs using unsafe (outside the property)"]
@@ -47,6 +48,7 @@ def run(chk, tier):
         collect_impl_lifetimes(chk, prog, c)
         rebrand(chk, prog, c)
         static_returns(chk, prog, c)
+        free_output_lifetimes(chk, prog, c)
         common.unsafe_macros(chk, prog, "C12", c)
     res = witness.report(chk, "C12", rule="escape-corpus", floor=80, tier=tier)
     witness.report(chk, "C03", rule="exclusive-access-witness", floor=5, tier=tier)
@@ -182,6 +184,45 @@ def rebrand(chk, prog, c):
     # the identity of the slot table (interpreted from MIR; shared with C14 / C20)
     rules_roots.fetch_rules(chk, prog, c, rule="fetch-contract")
     rules_roots.contains_identity(chk, prog, c, rule="handle-identity-check")
+
+
+# builder types are *unlinked* allocations: their brand can be chosen freely at construction because completing
+# them needs a `&Mutation` of the very same brand (assume_init / write / write_slice_with / copy_*)
+FREE_BRAND_OK = ("gc::GcBuilder<", "slice::GcSliceWithHeaderBuilder<", "slice::GcSliceWithHeaderSliceBuilder<",
+                 "slice::GcSliceBuilder<", "slice::GcStrBuilder<")
+
+
+def free_output_lifetimes(chk, prog, c):
+    """An exported safe function whose return type carries a lifetime that occurs in none of its inputs lets the
+    caller pick that lifetime ('static included): for a branded value or a reference this is an escape hatch."""
+    import re as _re
+    n = 0
+    for f in prog.f["fns"]:
+        if f["kind"] not in ("Fn", "AssocFn") or not (f.get("reachable") or f.get("exported")) or f.get("unsafe"):
+            continue
+        if "out_regions" not in f:
+            chk.anchor("fn signature regions from the driver", False, "(config %s)" % c)
+            return
+        n += 1
+        extra = sorted(set(f["out_regions"]) - set(f["in_regions"]))
+        if not extra:
+            chk.inst("no-free-output-lifetime", "%s[%s]" % (f["n"], c), True, nontrivial=False)
+            continue
+        out = f["output"]["s"]
+        names = [e.split("/")[0] for e in extra]
+        # shorter-than-an-input lifetimes are harmless: `'x: 'a` with 'x occurring in an input
+        in_names = {e.split("/")[0] for e in f["in_regions"]}
+        bounded = {nm for nm in names for p in f["predicates"]
+                   if _re.match(r"^\s*(\'\w+)\s*:\s*%s\s*$" % _re.escape(nm), p["s"]) and _re.match(r"^\s*(\'\w+)", p["s"]).group(1) in in_names}
+        names = [nm for nm in names if nm not in bounded]
+        ok = not names or out.startswith(FREE_BRAND_OK) or out.startswith(("*const ", "*mut "))
+        chk.inst("no-free-output-lifetime", "%s[%s]" % (f["n"], c), ok,
+                 detail="exported safe fn `%s` returns `%s`: lifetime(s) %s occur in none of its inputs, so the caller "
+                        "chooses them freely - a branded value or reference at 'static outlives every callback" % (
+                            f["n"], out, names),
+                 loc="%s:%s" % (f["span"]["f"], f["span"]["l"]),
+                 sample={"fn": f["n"], "output": out, "free": names})
+    chk.floor("exported-safe-fns[%s]" % c, n, 80)
 
 
 def static_returns(chk, prog, c):
